@@ -17,9 +17,8 @@
 //    along with this program.  If not, see <https://www.gnu.org/licenses/>.
 
 use binascii::hex2bin;
-use flate2::write::ZlibDecoder;
+use flate2::{Decompress, FlushDecompress, Status};
 use lzw::{Decoder, DecoderEarlyChange, LsbReader};
-use std::io::Write;
 use std::num::Wrapping;
 use std::panic;
 
@@ -82,36 +81,52 @@ impl BufferTransformT for FlateDecode<'_> {
             })
             .unwrap_or(1);
 
-        let mut decoder = ZlibDecoder::new(Vec::new());
+        let mut inflater = Decompress::new(true);
+        let mut decoded = Vec::new();
+        let input = buf.buf();
 
-        // PDF streams can have bytes trailing the filter content, so
-        // write_all() could cause spurious errors due to the trailing
-        // bytes not being consumed by the decoder.  Since write() has
-        // an internal consuming loop, we could rely on it to consume
-        // all relevant bytes in a single call.
-
-        if let Err(e) = decoder.write(buf.buf()) {
-            let err = ErrorKind::TransformError(format!("flatedecode write error: {}", e));
-            let loc = buf.get_location();
-            return Err(locate_value(err, loc.loc_start(), loc.loc_end()))
-        };
-        // otherwise, all bytes were consumed.
-
-        match decoder.finish() {
-            Err(e) => {
-                let err = ErrorKind::TransformError(format!("flatedecode finish error: {}", e));
-                let loc = buf.get_location();
-                Err(locate_value(err, loc.loc_start(), loc.loc_end()))
-            },
-            Ok(decoded) => flate_lzw_filter(
-                decoded,
-                &buf.get_location(),
-                predictor as usize,
-                colors as usize,
-                columns as usize,
-                bitspercolumn as usize,
-            ),
+        // PDF streams can have bytes trailing the filter content:
+        // those are ignored.  The compressed data itself has to be
+        // complete, and all of it is decoded, however much the
+        // decompressor handles in one call.
+        loop {
+            let consumed = inflater.total_in() as usize;
+            let produced = inflater.total_out();
+            decoded.reserve(32 * 1024);
+            let status =
+                inflater.decompress_vec(&input[consumed ..], &mut decoded, FlushDecompress::None);
+            match status {
+                Ok(Status::StreamEnd) => break,
+                Ok(_) if inflater.total_in() as usize > consumed
+                    || inflater.total_out() > produced =>
+                {
+                    continue
+                },
+                Ok(_) => {
+                    // No progress: the input ends before the
+                    // compressed data does.
+                    let err = ErrorKind::TransformError(
+                        "flatedecode error: truncated compressed data".to_string(),
+                    );
+                    let loc = buf.get_location();
+                    return Err(locate_value(err, loc.loc_start(), loc.loc_end()))
+                },
+                Err(e) => {
+                    let err = ErrorKind::TransformError(format!("flatedecode error: {}", e));
+                    let loc = buf.get_location();
+                    return Err(locate_value(err, loc.loc_start(), loc.loc_end()))
+                },
+            }
         }
+
+        flate_lzw_filter(
+            decoded,
+            &buf.get_location(),
+            predictor as usize,
+            colors as usize,
+            columns as usize,
+            bitspercolumn as usize,
+        )
     }
 }
 
